@@ -7,7 +7,7 @@ cd /verif
 names=${@:-$(ls benign)}
 for n in $names; do
   tmp=$(mktemp -d /tmp/bn.XXXX); git -C /repo worktree add -q --detach $tmp/repo HEAD
-  if ! git -C $tmp/repo apply --whitespace=nowarn benign/$n/patch.diff; then echo "== $n PATCH FAILS"; git -C /repo worktree remove --force $tmp/repo; rm -rf $tmp; continue; fi
+  if ! git -C $tmp/repo apply --whitespace=nowarn /verif/benign/$n/patch.diff; then echo "== $n PATCH FAILS"; git -C /repo worktree remove --force $tmp/repo; rm -rf $tmp; continue; fi
   t=$(cd $tmp/repo && PYTHONPATH=$tmp/repo /venv/bin/python -m pytest -q -p no:cacheprovider -n 4 --deselect tests/test_parser.py::TestArgumentParsing::test_invalid_file_argument 2>&1 | tail -1)
   echo "== $n tests: $t"
   pid=${n#change-}
